@@ -591,6 +591,133 @@ fn gen_table() -> Vec<Input9> {
     v
 }
 
+
+// ---- engine-side in-flight recordings and cancel responses between the delivered reports ----
+
+fn okey(i: usize, c: u32) -> KeyJ {
+    KeyJ { e: 0, i, s: 7, c }
+}
+fn rec_open(i: usize, c: u32) -> EvJ {
+    EvJ::Ord {
+        op: OpJ::RecOpen {
+            o: OrdJ {
+                st: StJ::Req,
+                ..open_snap(i, c, 0, 0)
+            },
+        },
+    }
+}
+fn rec_cancel(i: usize, c: u32) -> EvJ {
+    EvJ::Ord {
+        op: OpJ::RecCancel {
+            key: okey(i, c),
+            oid: Some(5),
+        },
+    }
+}
+fn cancel_resp(i: usize, c: u32, ok: bool, t: i64) -> EvJ {
+    EvJ::Ord {
+        op: OpJ::CancelResp {
+            key: okey(i, c),
+            ok,
+            oid: 5,
+            t,
+            err: 0,
+        },
+    }
+}
+fn open_report(i: usize, c: u32, t: i64, u: u32, in_snapshot: bool) -> EvJ {
+    if in_snapshot {
+        EvJ::Acct {
+            bals: vec![],
+            insts: vec![ISnapJ {
+                inst: i,
+                orders: vec![open_snap(i, c, t, u)],
+            }],
+        }
+    } else {
+        EvJ::Ord {
+            op: OpJ::Snap {
+                o: open_snap(i, c, t, u),
+            },
+        }
+    }
+}
+
+/// exhaustive: how the id got tracked x number of cancel requests recorded (0, 1, 2) x a late
+/// report (older / tied / newer, direct or inside a full account snapshot) x cancel response
+/// (none / ok / err) x one more late older report
+fn gen_cancel_table() -> Vec<Input9> {
+    let mut v = vec![];
+    let (i, c) = (1usize, 1u32);
+    let pres: [Vec<EvJ>; 3] = [
+        vec![],
+        vec![rec_open(i, c)],
+        vec![rec_open(i, c), rec_cancel(i, c)],
+    ];
+    for pre in &pres {
+        for cancels in 0..=2 {
+            for late_t in 1..=3 {
+                for in_snapshot in [false, true] {
+                    for resp in 0..3 {
+                        let mut xs = pre.clone();
+                        xs.push(open_report(i, c, 2, 1, false));
+                        for _ in 0..cancels {
+                            xs.push(rec_cancel(i, c));
+                        }
+                        xs.push(open_report(i, c, late_t, 2, in_snapshot));
+                        match resp {
+                            1 => xs.push(cancel_resp(i, c, true, 4)),
+                            2 => xs.push(cancel_resp(i, c, false, 4)),
+                            _ => {}
+                        }
+                        xs.push(open_report(i, c, 1, 3, false));
+                        v.push(Input9 { ninst: 2, xs });
+                    }
+                }
+            }
+        }
+    }
+    v
+}
+
+/// the life of one or two client order ids as the engine sees it: requests recorded in flight
+/// (also repeatedly), open reports in any timestamp order (direct or inside full snapshots),
+/// cancel responses, now and then a terminal report and a fresh open request
+fn gen_episode(r: &mut Rng, max_len: u64, adversarial: bool) -> Input9 {
+    let ninst = 2usize;
+    let n_cids = 1 + r.below(2) as u32;
+    let len = 3 + r.below(max_len);
+    let mut xs = vec![];
+    let mut clock = 2i64;
+    for j in 0..len {
+        let i = if r.chance(1, 6) { 0 } else { 1 };
+        let c = 1 + r.below(n_cids as u64) as u32;
+        let u = j as u32;
+        let t = match r.below(if adversarial { 4 } else { 6 }) {
+            0 => (clock - 1 - r.below(3) as i64).max(0), // late
+            1 => clock,                                  // tie with the latest
+            _ => {
+                clock += 1;
+                clock
+            }
+        };
+        let x = match r.below(16) {
+            0 => rec_open(i, c),
+            1..=4 => rec_cancel(i, c),
+            5 => cancel_resp(i, c, true, t),
+            6..=7 => cancel_resp(i, c, false, t),
+            8 => EvJ::Ord {
+                op: gen_other_order_op(r, i, c, t),
+            },
+            9..=10 => open_report(i, c, t, u, true),
+            _ => open_report(i, c, t, u, false),
+        };
+        xs.push(x);
+    }
+    Input9 { ninst, xs }
+}
+
 /// a set of `n` messages, most of them about one item with few distinct timestamps
 fn gen_set(r: &mut Rng, n: usize, ninst: usize) -> Vec<EvJ> {
     let theme = *r.pick(&KINDS);
@@ -607,6 +734,19 @@ fn gen_set(r: &mut Rng, n: usize, ninst: usize) -> Vec<EvJ> {
         } else {
             let k = *r.pick(&flavours(theme));
             v.push(msg(k, item, r.range(1, tmax), u));
+        }
+    }
+    // order-themed sets: engine-side recordings travel with the reports (cancel requests, also
+    // repeated, and a rejected / confirmed cancel), permuted like everything else
+    if matches!(theme, Kind::OrdOpen | Kind::AcctOrd) && r.chance(2, 3) {
+        let k = 1 + r.below(2) as usize;
+        for _ in 0..k.min(v.len().saturating_sub(2)) {
+            let at = r.below(v.len() as u64) as usize;
+            v[at] = rec_cancel(item, 1);
+        }
+        if r.chance(1, 2) && v.len() >= 4 {
+            let at = r.below(v.len() as u64) as usize;
+            v[at] = cancel_resp(item, 1, r.chance(1, 3), tmax);
         }
     }
     // sometimes merge two account snapshots into one carrying both items
@@ -787,6 +927,16 @@ fn main() {
             let mut r = Rng::new(args.seed);
             for input in gen_table() {
                 emit9(&mut em, "table", &input);
+            }
+            for input in gen_cancel_table() {
+                emit9(&mut em, "table", &input);
+            }
+            let (n_epi, epi_len) = if thorough { (2500, 30) } else { (140, 12) };
+            for j in 0..n_epi {
+                let mut rr = r.fork();
+                let adv = j % 3 == 2;
+                let input = gen_episode(&mut rr, epi_len, adv);
+                emit9(&mut em, if adv { "adversarial" } else { "random" }, &input);
             }
             // all permutations of message sets
             let sets: &[(usize, usize)] = if thorough {
